@@ -16,6 +16,7 @@ pass a predicted length, which is at most 65 538, so `decode` and the ADU decode
 without any side condition.
 -/
 namespace Modbus.C07
+open Modbus.Predict Modbus.Total
 
 /-! ### PDU decoders -/
 
